@@ -1,9 +1,69 @@
 import Drivers.Proto
-/-! Model driver for property C15 (stub: no model operations registered yet). -/
-open Lean Proto
+import St4sd.Model.Layer
+/-! Model driver for property C15.
+
+ops
+* `{"op":"layer","files":[[[sec,name,value],...],...],"order":[i,...],"queries":[[stage,name],...]}`
+  (`sec` = -1 for the global section, otherwise the stage index; `order` = the list of variable
+  files as given by the user, as indices into `files`, may repeat)
+  → `{"vars":[[sec,name,value],...],"effective":[value|null,...],"dedup":[i,...]}`
+* `{"op":"serialize","tree":T}` with `T = {"p":str} | {"d":[[key,T],...]} | {"l":[str,...]}`
+  → `{"buf":str}`
+-/
+open Lean Proto St4sd.Layer St4sd.Assoc
+
+def secOf (i : Int) : Option Nat := if i < 0 then none else some i.toNat
+def secJson : Option Nat → Json
+  | none => jint (-1)
+  | some n => jnat n
+
+def parseEntry (j : Json) : Except String (VKey × St4sd.Str.S) := do
+  let a ← j.getArr?
+  if a.size != 3 then throw "entry must be [sec,name,value]"
+  let sec ← a[0]!.getInt?
+  let name ← a[1]!.getStr?
+  let value ← a[2]!.getStr?
+  return ((secOf sec, name.toList), value.toList)
+
+partial def parseTree (j : Json) : Except String Tree := do
+  match j.getObjVal? "p" with
+  | .ok v => return .prim (← v.getStr?).toList
+  | .error _ =>
+  match j.getObjVal? "d" with
+  | .ok v =>
+    let es ← (← v.getArr?).toList.mapM (fun e => do
+      let a ← e.getArr?
+      if a.size != 2 then throw "dict entry must be [key,tree]"
+      let k ← a[0]!.getStr?
+      let t ← parseTree a[1]!
+      return (k.toList, t))
+    return ofEntries es
+  | .error _ =>
+  match j.getObjVal? "l" with
+  | .ok v =>
+    let xs ← (← v.getArr?).toList.mapM (fun e => do return (← e.getStr?).toList)
+    return ofItems xs
+  | .error _ => throw "tree must be {p}|{d}|{l}"
 
 def handle (j : Json) : Except String Json := do
   let op ← getStr j "op"
-  throw s!"unknown op {op}"
+  match op with
+  | "layer" =>
+    let files ← (← getArr j "files").mapM (fun f => do (← f.getArr?).toList.mapM parseEntry)
+    let order ← getNatList j "order"
+    let content : Nat → Vars := fun i => files.getD i []
+    let vars := loadVars content order
+    let qs ← (← getArr j "queries").mapM (fun q => do
+      let a ← q.getArr?
+      if a.size != 2 then throw "query must be [stage,name]"
+      return ((← a[0]!.getNat?), (← a[1]!.getStr?).toList))
+    return jobj [
+      ("vars", jarr (vars.map fun kv => jarr [secJson kv.1.1, jchars kv.1.2, jchars kv.2])),
+      ("effective", jarr (qs.map fun q => jopt jchars (effective vars q.1 q.2))),
+      ("dedup", jarr ((dedupKeepLast order).map jnat))]
+  | "serialize" =>
+    let t ← parseTree (← j.getObjVal? "tree")
+    return jobj [("buf", jchars (serialize t))]
+  | _ => throw s!"unknown op {op}"
 
 def main : IO Unit := serve handle
